@@ -332,5 +332,70 @@ def r12_5(ctx):
 r12_5.rule_id = "R12.5"
 
 
-RULES = [r12_1, r12_2, r12_3, r12_4, r12_5]
-FLOORS = {"R12.1": 30, "R12.2": 6, "R12.3": 3, "R12.4": 4, "R12.5": 2}
+def r12_6(ctx):
+    """consumer side of WeakRingBuffer<void>: a record header is read from buffer position mod(F) only on a path that established that at least
+    one header is published at F ('cback_ - F < sizeof(size_t)' is false for that same F) - also after the unused-tail marker was skipped"""
+    from sa.pathsim import PathSim
+    from sa.q import cond_atoms, noepoch
+    n = 0
+    for F in ctx.db.funcs.values():
+        if not re.search(r"WeakRingBuffer::(front|pop_front)$", F.q) or "WeakRingBuffer<void" not in F.qt:
+            continue
+        for p in PathSim(F, bound=4000).run():
+            ev = p.events
+            mods = {e.val: e for e in ev if e.kind == "call" and e.q and e.q.endswith("::mod") and e.args}
+
+            def derefs(sv, out, d=0):
+                if not isinstance(sv, tuple) or d > 12:
+                    return
+                if sv[:1] == ("deref",):
+                    ms = []
+                    _find(sv[1], lambda x: x in mods, ms)
+                    for m in ms:
+                        out.append((sv, m))
+                for x in sv:
+                    if isinstance(x, tuple):
+                        derefs(x, out, d + 1)
+            found = []
+            for e in ev:
+                if e.kind == "call":
+                    for a in e.args:
+                        derefs(a, found)
+            if p.outcome == "return" and p.ret is not None:
+                derefs(p.ret, found)
+            seen = set()
+            for sv, m in found:
+                if m in seen:
+                    continue
+                seen.add(m)
+                pos = mods[m].args[0]
+                posn = noepoch(pos) if isinstance(pos, tuple) else pos
+                n += 1
+                ok = False
+                for atom, tv, bev in cond_atoms(p):
+                    if tv is False and isinstance(atom, tuple) and atom[:2] == ("op", "<") and isinstance(atom[2], tuple) and atom[2][:2] == ("op", "-"):
+                        sub = atom[2][3]
+                        if (noepoch(sub) if isinstance(sub, tuple) else sub) == posn and "cback_" in repr(atom[2][2]) + repr([x.obj for x in ev if x.val == atom[2][2]]):
+                            ok = True
+                ctx.check(ok, "R12.6", F, "a record header is read at a position only after the consumer saw at least one header published there", mods[m].node,
+                          detail="position %r: no 'cback_ - position < sizeof(size_t)' test is false on this path for that position. Between back() and push_back() of a "
+                          "wrapped record the header at the buffer start is written but not published: reading it returns a record that was never pushed. %s" % (pos, R),
+                          sig="header-read-published")
+    if n < 3:
+        ctx.broken("WeakRingBuffer<void> consumer header reads not found (%d)" % n)
+r12_6.rule_id = "R12.6"
+
+
+def _find(sv, pred, out, d=0):
+    if d > 12:
+        return
+    if pred(sv):
+        out.append(sv)
+    if isinstance(sv, tuple):
+        for x in sv:
+            if isinstance(x, tuple):
+                _find(x, pred, out, d + 1)
+
+
+RULES = [r12_1, r12_2, r12_3, r12_4, r12_5, r12_6]
+FLOORS = {"R12.1": 30, "R12.2": 6, "R12.3": 3, "R12.4": 4, "R12.5": 2, "R12.6": 3}
